@@ -53,16 +53,17 @@ def _viol(ctx, key, detail):
     ctx.violation(key, detail)
 
 
-INVS = ["TypeOK", "SplitMerge", "BatchCallWhole", "MaskExact", "IndexExact", "GenPrefix", "GenRelation"]
+INVS = ["TypeOK", "SplitMerge", "BatchCallWhole", "MaskExact", "IndexExact", "GenPrefix", "GenLossless", "GenLeafless", "ModelsAgree", "LazyNoExtra"]
+LEGACY_INVS = ["TypeOK", "GenPrefix", "LegacyRelation", "ModelsAgree", "LazyNoExtra"]
 
 
 # --------------------------------------------------------------------------
 # cfg files
 # --------------------------------------------------------------------------
-def _cfg_ops(ctx, name, nodes, maxn, maxnbig, max_iter, invs, post="Post", init="Init", nxt="Next"):
+def _cfg_ops(ctx, name, nodes, maxn, maxnbig, max_iter, invs, post="Post", init="Init", nxt="Next", legacy=False):
     p = os.path.join(ctx.work, "dataops_%s.cfg" % name)
     with open(p, "w") as f:
-        f.write("CONSTANTS MaxNodes = %d\n MaxN = %d\n MaxNBig = %d\n MAX_ITER = %d\n Widths = {0, 2}\n" % (nodes, maxn, maxnbig, max_iter))
+        f.write("CONSTANTS MaxNodes = %d\n MaxN = %d\n MaxNBig = %d\n MAX_ITER = %d\n Widths = {0, 2}\n Legacy = %s\n" % (nodes, maxn, maxnbig, max_iter, "TRUE" if legacy else "FALSE"))
         f.write("INIT %s\nNEXT %s\n" % (init, nxt))
         for i in invs:
             f.write("INVARIANT %s\n" % i)
@@ -259,11 +260,12 @@ def tlc_dataops(ctx, nodes, maxn, maxnbig, max_iter):
     return out
 
 
-def tlc_refute_lossless(ctx, max_iter):
-    """GenLossless (= the property, stated about the generator) is refuted by TLC"""
+def tlc_legacy(ctx, max_iter, exhaustive):
+    """the generator before the repair (Legacy = TRUE): TLC refutes GenLossless and returns the
+    counterexample (a regression witness); optionally the legacy characterisation is checked exhaustively"""
     r = tlc.run(
         "DataOps",
-        _cfg_ops(ctx, "refute", 3, 2, 2, max_iter, ["GenLossless"], post=None),
+        _cfg_ops(ctx, "legacy_refute", 3, 2, 2, max_iter, ["GenLossless"], post=None, legacy=True),
         work=ctx.work,
         workers=1,
         timeout=900,
@@ -271,8 +273,14 @@ def tlc_refute_lossless(ctx, max_iter):
         coverage=False,
     )
     if r.violation != "GenLossless" or not r.trace:
-        return None
-    ctx.cov["tlc_runs"].append({"run": "DataOps GenLossless (expected refutation)", "violated": r.violation, "trace_len": len(r.trace), "wall_s": round(r.wall, 2)})
+        raise tlc.MachineryError("the legacy generator model is expected to violate GenLossless; TLC says %r" % r.violation)
+    ctx.cov["tlc_runs"].append({"run": "DataOps Legacy=TRUE GenLossless (expected refutation)", "violated": r.violation, "trace_len": len(r.trace), "wall_s": round(r.wall, 2)})
+    if exhaustive:
+        r2 = tlc.run("DataOps", _cfg_ops(ctx, "legacy_exh", 3, 4, 4, max_iter, LEGACY_INVS, post=None, legacy=True), work=ctx.work, workers=8, timeout=1800)
+        if r2.violation:
+            raise tlc.MachineryError("legacy generator model violates %s" % r2.violation)
+        r2.coverage = final_coverage(r2)
+        ctx.tlc(r2, "DataOps Legacy=TRUE nodes<=3 N<=4 (LegacyRelation)", vacuity_actions=["Pick", "Yield", "Stop"])
     return r.trace
 
 
@@ -323,6 +331,14 @@ class Binder:
             return "split:empty_tuple"
         return "split:%s:N=%d:b=%d%s" % (tstr(t), n, b, ":axis=-1" if last else "")
 
+    def legacy_key(self, t):
+        """key of the pre-repair mechanism that would explain a loss on tree t"""
+        if has_empty(t, ("tuple",)):
+            return "split:empty_tuple"
+        if has_empty(t, ("dict",)):
+            return "split:empty_dict:N>MAX_ITER*b"
+        return "split:empty_list:N>MAX_ITER*b"
+
     def run_all(self):
         D = self.D
         ctx = self.ctx
@@ -341,9 +357,9 @@ class Binder:
         ctx.part(
             "generator_model",
             split_cases=len(sp),
-            lossless=sum(1 for c in sp if c["lossless"]),
-            lost_by_empty_tuple=sum(1 for c in sp if has_empty(c["t"], ("tuple",))),
-            lost_by_max_iter_cap=sum(1 for c in sp if not c["lossless"] and not has_empty(c["t"], ("tuple",))),
+            lossless_in_repaired_model=sum(1 for c in sp if c["genlen"] == len(_seq(c["pieces"]))),
+            legacy_lost_by_empty_tuple=sum(1 for c in sp if has_empty(c["t"], ("tuple",))),
+            legacy_lost_by_max_iter_cap=sum(1 for c in sp if not c["legacy_lossless"] and not has_empty(c["t"], ("tuple",))),
         )
         ctx.part("dataops_binding", model_drift=self.drift)
 
@@ -384,15 +400,13 @@ class Binder:
                 self.viol("generator:%s:N=%d:b=%d:raise" % (name, n, b), {"error": repr(e)})
         if gen is not None:
             self.n["gen_model"] += 1
-            model = want[: c["genlen"]]
+            model = want[: c["genlen"]]  # repaired model: every batch (GenLossless)
+            legacy = want[: c["legacy_genlen"]]
             if gen == model:
                 self.validated += 1
-            elif gen == want[: len(gen)]:
-                # right batches, other count than the step model (e.g. the modelled loss was repaired):
-                # model drift, never a violation -- MAX_ITER was passed explicitly here
-                self.drift += 1
-                if self.drift <= 3:
-                    ctx.notes.append("model_drift: data_generator(MAX_ITER=%d) yields %d batches on %s N=%d b=%d, the step model %d" % (self.max_iter, len(gen), name, n, b, len(model)))
+            elif gen == legacy and len(legacy) < len(want):
+                # the behaviour before commit 1398c06 is back
+                self.viol(self.legacy_key(t), {"via": "data_generator(MAX_ITER=%d)" % self.max_iter, "tree": name, "N": n, "batch": b, "batches_got": len(gen), "batches_expected": len(want)})
             else:
                 self.viol("generator:%s:N=%d:b=%d" % (name, n, b), {"got": short(gen), "model": short(model)})
         # 3. data_merge on the spec's pieces (independent of data_split)
@@ -465,6 +479,15 @@ class Binder:
             merged = proj(D.data_merge(*it))
             if len(it) != nb or merged != want:
                 self.viol("lazy:iter:%s:N=%d:b=%d" % (name, n, b), {"pieces": len(it), "expected_pieces": nb, "merged": short(merged), "expected": short(want)})
+            # no extra entry at all (extra = {}): every batch of x is delivered
+            L0 = D.LazyCall(lazyf, x)
+            it0 = take(D.data_split(L0, b), n + self.max_iter + 3)
+            m0 = proj(D.data_merge(*it0)) if it0 else None
+            if len(it0) != c["lazylen"] or m0 != expect(c["lazy0"]) or proj(L0.eval()) != expect(c["lazy0"]):
+                if not it0 and e_tuple and not split_ok:
+                    self.viol("split:empty_tuple", {"via": "LazyCall.__iter__", "tree": name})
+                else:
+                    self.viol("lazy:iter_no_extra:%s:N=%d:b=%d" % (name, n, b), {"pieces": len(it0), "expected_pieces": c["lazylen"], "merged": short(m0)})
             L2 = L.copy()
             L2["k2"] = np.arange(7001, 7001 + n, dtype=np.float64) + 50
             if proj(L.eval()) != want:
@@ -1181,20 +1204,27 @@ def root_part(ctx):
 
 # --------------------------------------------------------------------------
 def replay_counterexample(ctx, binder, trace):
-    """the TLC counterexample to GenLossless, executed on the real data_generator"""
+    """the TLC counterexample of the legacy model (events lost), executed on the real
+    data_generator: the repaired code must deliver Split, not the legacy output"""
     D = binder.D
     last = trace[-1][-1]
     cs = plain(last["cs"])
-    d, n, b = cs["d"], cs["n"], cs["b"]
+    d, n, b, t = cs["d"], cs["n"], cs["b"], cs["t"]
     x = build(d)
-    want = plain(last["out"])
+    legacy_out = [expect(p) for p in plain(last["out"])]
     kw = {"MAX_ITER": binder.max_iter} if binder.has_max_iter else {}
     got = [proj(p) for p in take(D.data_generator(x, fun=D._data_split, args=(b,), kwargs={"axis": 0}, **kw), n + binder.max_iter + 3)]
     nb = (n + b - 1) // b
-    same = got == [expect(p) for p in want]
-    ctx.part("design_level_finding", counterexample_tree=tstr(cs["t"]), N=n, batch=b, spec_pieces=len(want), declarative_pieces=nb, reproduced_on_code=bool(same and len(got) < nb))
-    ctx.sample({"op": "GenLossless refuted by TLC", "tree": tstr(cs["t"]), "N": n, "batch": b, "generator_pieces": len(want), "declarative_pieces": nb, "real_data_generator_pieces": len(got)})
-    return same and len(got) < nb
+    real = take(D.data_generator(x, fun=D._data_split, args=(b,), kwargs={"axis": 0}, **kw), n + binder.max_iter + 3)
+    merged_ok = bool(real) and proj(D.data_merge(*real)) == expect(d)
+    regressed = got == legacy_out and len(got) < nb
+    ctx.part("legacy_counterexample", tree=tstr(t), N=n, batch=b, legacy_model_batches=len(legacy_out), declarative_batches=nb, real_batches=len(got), reproduces_on_code=bool(regressed))
+    ctx.sample({"op": "GenLossless refuted for the legacy generator (Legacy=TRUE)", "tree": tstr(t), "N": n, "batch": b, "legacy_model_batches": len(legacy_out), "declarative_batches": nb, "real_data_generator_batches": len(got)})
+    if regressed:
+        _viol(ctx, binder.legacy_key(t), {"via": "legacy counterexample of TLC", "tree": tstr(t), "N": n, "batch": b, "batches_got": len(got), "batches_expected": nb})
+    elif len(got) != nb or not merged_ok:
+        _viol(ctx, "generator:%s:N=%d:b=%d" % (tstr(t), n, b), {"batches_got": len(got), "batches_expected": nb})
+    return regressed
 
 
 def run(ctx):
@@ -1206,12 +1236,9 @@ def run(ctx):
     out = tlc_dataops(ctx, nodes, maxn, maxnbig, max_iter)
     ctx.log("DataOps: %d shapes, %d cases" % (out["nshapes"], out["ncases"]))
     binder = Binder(ctx, out)
-    trace = tlc_refute_lossless(ctx, max_iter)
-    if trace is None:
-        ctx.notes.append("GenLossless holds on the generator model: the specification no longer predicts a loss")
-    else:
-        rep = replay_counterexample(ctx, binder, trace)
-        ctx.log("GenLossless refuted by TLC; counterexample reproduced on data_generator:", rep)
+    trace = tlc_legacy(ctx, max_iter, exhaustive=not quick)
+    regressed = replay_counterexample(ctx, binder, trace)
+    ctx.log("legacy generator model refuted by TLC; its counterexample reproduces on the code:", regressed)
     binder.run_all()
     ctx.log("DataOps cases bound:", binder.n)
     structured_files(ctx, binder, 150 if quick else 2000)
@@ -1226,7 +1253,8 @@ def run(ctx):
     ctx.cov["rule"] = (
         "DataOps: every tree of <=%d dict/list/tuple/leaf nodes (leaves 1-d or N x 2, empty containers included) x N<=%d "
         "(N<=%d for %d-node trees) x (batch 1..N+1 | every boolean mask | every path) is one TLC case (state space = shapes + cases + "
-        "generator steps, MAX_ITER=%d in the model); invariants SplitMerge, BatchCallWhole, MaskExact, IndexExact, GenPrefix, GenRelation; "
+        "generator steps, MAX_ITER=%d in the model); invariants SplitMerge, BatchCallWhole, LazyNoExtra, MaskExact, IndexExact, GenPrefix, GenLossless, GenLeafless, ModelsAgree "
+        "(generator model = repaired code; the pre-repair model Legacy=TRUE is refuted by TLC and its counterexample must not reproduce); "
         "every case executed on tf_pwa.data (data_split/split_generator, data_generator, data_merge, batch_call(_numpy), batch_sum, LazyCall, "
         "data_mask, data_index, structure helpers, save_data/load_data) and compared exactly; real MAX_ITER boundary and the calls of "
         "tests/test_data.py validated by TLC against Split. DatFile: every (n<=%d, N<=3, composition into files, dat_order permutation, layout) "
@@ -1239,7 +1267,7 @@ def run(ctx):
     ctx.assume("save_data/load_data are judged on dict-rooted data (the cached-data format); bare arrays / lists at the root follow numpy.save's own conversion and are counted as informational")
     ctx.assume("event ids are float64 / int64 array contents < 2^53, so equality is exact; text files are written with numpy's default 18-digit format")
     ctx.assume("np.Inf shim installed by the harness for importing tf_pwa.config_loader under NumPy 2")
-    ctx.assume("data_generator(MAX_ITER=%d) is used to bind the step model; the loss it shows there is the modelled mechanism, reported as a violation only where data_split (MAX_ITER=%d) loses events" % (max_iter, binder.real_max_iter))
+    ctx.assume("data_generator is called with MAX_ITER=%d to bind the step model (real default %d); for structures with a leaf MAX_ITER has no effect in the repaired model, so any loss there is a violation" % (max_iter, binder.real_max_iter))
 
 
 def replay(ctx, path):
